@@ -116,7 +116,7 @@ def oracle(line, out):
             fid, off, ln = a
             if ln > 0:
                 if fid >= len(files) or off < 0 or off + ln > files[fid]:
-                    tainted = True
+                    return None     # caller obligation violated: not judged
                 else:
                     me.app(pat(fid, off + ln)[off:])
         elif op == "ac":
@@ -163,12 +163,12 @@ def oracle(line, out):
         elif op == "cr":
             s = q[a[0] & 1]
             off, ln = a[1], a[2]
-            if off >= 0 and ln > 0:
+            if res == "cr" and off >= 0 and ln > 0:
                 me.app(s.data[off:off + ln])
         elif op == "mw":
-            if a[0] > len(me.data) or a[0] < 0:
-                tainted = True
-            else:
+            if res == "mw":
+                if a[0] > len(me.data):
+                    return "%s: harness accepted mark_written beyond the reference length" % where
                 me.consume(a[0])
         elif op in ("rf", "re", "cm", "co", "sq"):
             pass
@@ -182,7 +182,7 @@ def oracle(line, out):
                     return "%s: peek returned bytes that are not the queue's prefix" % where
                 if rc == 0 and dlen != min(a[0], len(me.data)) and unreadable_ok(st["q%d" % qi]) is False:
                     return "%s: peek succeeded with %d bytes, expected %d" % (where, dlen, min(a[0], len(me.data)))
-                if rc != 0 and unreadable_ok(st["q%d" % qi]) is False:
+                if rc != 0 and a[0] > 0 and unreadable_ok(st["q%d" % qi]) is False:
                     return "%s: peek failed although every queued byte is readable" % where
         elif op == "rd":
             r = res.split(":")[1].split(",")
@@ -193,7 +193,7 @@ def oracle(line, out):
                     if crc(me.data[:a[0]]) != r[1]:
                         return "%s: read_data returned bytes that are not the queue's prefix" % where
                 me.consume(a[0])
-            elif not tainted and a[0] <= len(me.data) and unreadable_ok(st["q%d" % qi]) is False:
+            elif not tainted and 0 < a[0] <= len(me.data) and unreadable_ok(st["q%d" % qi]) is False:
                 return "%s: read_data failed although %d bytes are queued and readable" % (where, len(me.data))
         elif op == "rs":
             me.data, me.bin, me.bout = b"", 0, 0
